@@ -292,3 +292,13 @@ def run(ck, facts):
         a = rt.adt(name)
         ck.expect(a["repr_transparent"], "R6", name + "/repr(transparent)", "", "%s is not repr(transparent) over its byte view" % name, C.loc(a))
         ck.expect(not a["variants"][0]["fields"][0]["vis"].startswith("Public"), "R6", name + ".0/private", "", "inner view is public: unvalidated bytes can be wrapped as str", C.loc(a))
+
+
+def run_thorough(ck, facts):
+    """Thorough tier: compile-fail witnesses for the type-level clauses, and the runtime rules again on the feature-less build of diplomat-runtime."""
+    import thorough
+    thorough.witnesses(ck, "T1", "c16")
+    alt = thorough.altcfg_runtime()
+    ck.units.append("diplomat_runtime.lib built with --no-default-features (MIR)")
+    sub = C.SubCheck(ck, "T2", "the runtime-level rules hold as well for diplomat-runtime compiled without its optional features (what a no-jvm, no-log dependent links)", ['R1', 'R2', 'R3', 'R4', 'R6'])
+    run(sub, alt)
